@@ -304,7 +304,10 @@ def batch_adversarial_tags(ctx):
             continue
         if len(p2.outputs) != nout or len(p2.inputs) != nin:
             continue
-        runs = [p2.make_inputs(nprng)]
+        # only what the program reads: an unreachable placeholder may share its name with a Named data wrapper,
+        # and a value passed for it would replace the pre-bound data
+        reach = _reachable_inputs(p2)
+        runs = [{k: v for k, v in p2.make_inputs(nprng).items() if k in reach}]
         jobs.append(cexec.Job(tag=f"tag{i}", expr=p2.expr(), runs=runs, prep=_prep_dedup, kir_orders=0, post=_post,
                               want_source=True))
         meta.append((p2, runs, in_names, out_names, tagger))
